@@ -24,29 +24,29 @@ func init() {
 
 // table: function|message -> reason
 var c11PanicTable = map[string]string{
-	"(workflow.DAGItem).String|DAG item for step without stage":    "String() is called on stage / stage-output / output items only, whose StageID comes from the providers' LifecycleStage literals (non-empty constants; group nodes get explicit ids)",
-	"(yaml.node).MapKey|node is not a map, cannot call MapKey":     "CHECK:map-type-guard",
-	"(yaml.node).MapKeys|node is not a map, cannot call MapKeys":   "CHECK:map-type-guard",
-	"(yaml.node).Raw|bug: unexpected type ID: %s":                  "CHECK:node-typeids",
+	"(workflow.DAGItem).String|DAG item for step without stage":  "String() is called on stage / stage-output / output items only, whose StageID comes from the providers' LifecycleStage literals (non-empty constants; group nodes get explicit ids)",
+	"(yaml.node).MapKey|node is not a map, cannot call MapKey":   "CHECK:map-type-guard",
+	"(yaml.node).MapKeys|node is not a map, cannot call MapKeys": "CHECK:map-type-guard",
+	"(yaml.node).Raw|bug: unexpected type ID: %s":                "CHECK:node-typeids",
 }
 
 var c11AssertTable = map[string]string{
-	"(*foreach.forEachProvider).LoadSchema|string|map element[workflow] of param inputs":                                           "CHECK:provider-data-validated",
-	"(*plugin.pluginProvider).LoadSchema|map[string]any|map element[plugin] of param inputs":                                       "CHECK:provider-data-validated",
-	"(*plugin.pluginProvider).LoadSchema|string|map element[deployment_type] of assertion on map element[plugin] of param inputs": "CHECK:provider-data-validated",
-	"(*plugin.pluginProvider).LoadSchema|string|map element[src] of assertion on map element[plugin] of param inputs":             "CHECK:provider-data-validated",
-	"(*plugin.runnableStep).Lifecycle|string|phi rawStepID":                                                                        "the argument is the run data produced by getRunData, i.e. unserialized against RunSchema() whose `step` property is a string schema; a nil/absent value is replaced by \"\" on the other phi edge",
-	"(*workflow.executor).connectStepDependencies|map[any]any|range element":                                                       "CHECK:steps-checked-first",
-	"(*workflow.executor).getRunData|map[string]any|result#0 of (*go.flow.arcalot.io/pluginsdk/schema.ObjectSchema).Unserialize":   "CHECK:object-unserialize",
-	"(*workflow.executor).loadSchema|map[string]any|result#0 of (*go.flow.arcalot.io/pluginsdk/schema.ObjectSchema).Unserialize":   "CHECK:object-unserialize",
-	"(*workflow.executor).prepareDependencies|string|result of (reflect.Value).Interface":                                          "the walked values are built by yamlBuildExpressions as map[string]any and copied by checkAndConvert, which keeps string keys; no other producer of step/output data exists (C02.R1 producer set)",
-	"(yaml.node).Raw|string|result of iface:go.flow.arcalot.io/engine/internal/yaml.Node.Raw":                                      "CHECK:scalar-keys",
-	"infer.Scope|go.flow.arcalot.io/pluginsdk/schema.Scope|result#0 of go.flow.arcalot.io/engine/internal/infer.Type":             "CHECK:typeid-guard",
-	"infer.Scope|*go.flow.arcalot.io/pluginsdk/schema.ObjectSchema|result#0 of go.flow.arcalot.io/engine/internal/infer.Type":     "CHECK:typeid-guard",
-	"infer.objectType|string|result of (reflect.Value).Interface":                                                                  "objectType is only called by mapType after the inferred key type was found to be string / string enum",
-	"workflow.addInputNamespaces|go.flow.arcalot.io/pluginsdk/schema.UntypedList|result of (*go.flow.arcalot.io/pluginsdk/schema.PropertySchema).Type": "CHECK:typeid-guard",
-	"workflow.addInputNamespaces|go.flow.arcalot.io/pluginsdk/schema.Scope|phi inputSchemaType":                                                       "CHECK:typeid-guard",
-	"workflow.addScopesWithReferences|go.flow.arcalot.io/pluginsdk/schema.Ref|result of (*go.flow.arcalot.io/pluginsdk/schema.PropertySchema).Type":    "CHECK:typeid-guard",
+	"(*foreach.forEachProvider).LoadSchema|string|map element[workflow] of param inputs":                                                                   "CHECK:provider-data-validated",
+	"(*plugin.pluginProvider).LoadSchema|map[string]any|map element[plugin] of param inputs":                                                               "CHECK:provider-data-validated",
+	"(*plugin.pluginProvider).LoadSchema|string|map element[deployment_type] of assertion on map element[plugin] of param inputs":                          "CHECK:provider-data-validated",
+	"(*plugin.pluginProvider).LoadSchema|string|map element[src] of assertion on map element[plugin] of param inputs":                                      "CHECK:provider-data-validated",
+	"(*plugin.runnableStep).Lifecycle|string|phi rawStepID":                                                                                                "the argument is the run data produced by getRunData, i.e. unserialized against RunSchema() whose `step` property is a string schema; a nil/absent value is replaced by \"\" on the other phi edge",
+	"(*workflow.executor).connectStepDependencies|map[any]any|range element":                                                                               "CHECK:steps-checked-first",
+	"(*workflow.executor).getRunData|map[string]any|result#0 of (*go.flow.arcalot.io/pluginsdk/schema.ObjectSchema).Unserialize":                           "CHECK:object-unserialize",
+	"(*workflow.executor).loadSchema|map[string]any|result#0 of (*go.flow.arcalot.io/pluginsdk/schema.ObjectSchema).Unserialize":                           "CHECK:object-unserialize",
+	"(*workflow.executor).prepareDependencies|string|result of (reflect.Value).Interface":                                                                  "the walked values are built by yamlBuildExpressions as map[string]any and copied by checkAndConvert, which keeps string keys; no other producer of step/output data exists (C02.R1 producer set)",
+	"(yaml.node).Raw|string|result of iface:go.flow.arcalot.io/engine/internal/yaml.Node.Raw":                                                              "CHECK:scalar-keys",
+	"infer.Scope|go.flow.arcalot.io/pluginsdk/schema.Scope|result#0 of go.flow.arcalot.io/engine/internal/infer.Type":                                      "CHECK:typeid-guard",
+	"infer.Scope|*go.flow.arcalot.io/pluginsdk/schema.ObjectSchema|result#0 of go.flow.arcalot.io/engine/internal/infer.Type":                              "CHECK:typeid-guard",
+	"infer.objectType|string|result of (reflect.Value).Interface":                                                                                          "objectType is only called by mapType after the inferred key type was found to be string / string enum",
+	"workflow.addInputNamespaces|go.flow.arcalot.io/pluginsdk/schema.UntypedList|result of (*go.flow.arcalot.io/pluginsdk/schema.PropertySchema).Type":     "CHECK:typeid-guard",
+	"workflow.addInputNamespaces|go.flow.arcalot.io/pluginsdk/schema.Scope|phi inputSchemaType":                                                            "CHECK:typeid-guard",
+	"workflow.addScopesWithReferences|go.flow.arcalot.io/pluginsdk/schema.Ref|result of (*go.flow.arcalot.io/pluginsdk/schema.PropertySchema).Type":        "CHECK:typeid-guard",
 	"workflow.addScopesWithReferences|*go.flow.arcalot.io/pluginsdk/schema.ObjectSchema|result of iface:go.flow.arcalot.io/pluginsdk/schema.Ref.GetObject": "pluginsdk's only Ref implementation (RefSchema) returns its *ObjectSchema from GetObject; the assertion is on the TypeIDRef branch after ValidateReferences succeeded",
 }
 
